@@ -69,6 +69,7 @@ package knx
 //@   requires res != nil && conn.config.ResendInterval > 0
 //@   ensures [foreign] res.Channel != conn.channel ==> err != nil && nsent(conn.ack) == old(nsent(conn.ack))
 //@   ensures [offered] nsent(conn.ack) > old(nsent(conn.ack)) ==> res.Channel == conn.channel && lastsent(conn.ack) == res && nsent(conn.ack) == old(nsent(conn.ack)) + 1
+//@   ensures [frame.inbound] base(conn.ack) != base(conn.inbound) ==> nsent(conn.inbound) == old(nsent(conn.inbound))
 //@   assigns nothing
 
 // ---------- C09: heartbeat, disconnect, reconnect ----------
@@ -82,7 +83,7 @@ package knx
 
 //@ func (conn *Tunnel) requestConnState(heartbeat <-chan knxnet.ErrCode) (state knxnet.ErrCode, err error)
 //@   props C09
-//@   ghost nsend lastsend sendsame sendclock nrecv lastrecv nticker ntickerstop nafter period lastticker.d lastafter.d
+//@   ghost nsend(conn.sock) lastsend(conn.sock) sendsame(conn.sock) sendclock(conn.sock) nrecv(heartbeat) lastrecv(heartbeat) nticker ntickerstop nafter period lastticker.d lastafter.d
 //@   noterm
 //@   requires conn.sock != nil && conn.config.ResendInterval > 0
 //@   ensures [request] nsend(conn.sock) >= old(nsend(conn.sock)) + 1 && typeis(lastsend(conn.sock), *knxnet.ConnStateReq) && lastsend(conn.sock).(*knxnet.ConnStateReq).Channel == conn.channel && lastsend(conn.sock).(*knxnet.ConnStateReq).Status == 0 && lastsend(conn.sock).(*knxnet.ConnStateReq).Control == conn.control
@@ -100,11 +101,12 @@ package knx
 
 //@ func (conn *Tunnel) performHeartbeat(heartbeat <-chan knxnet.ErrCode, timeout chan<- struct{})
 //@   props C09
-//@   ghost nsend lastsend sendsame sendclock nrecv lastrecv nticker ntickerstop nafter period lastticker.d lastafter.d nsent lastsent
+//@   ghost nsend(conn.sock) lastsend(conn.sock) sendsame(conn.sock) sendclock(conn.sock) nrecv(heartbeat) lastrecv(heartbeat) nrecv(conn.done) lastrecv(conn.done) nticker ntickerstop nafter period lastticker.d lastafter.d nsent(timeout) lastsent(timeout)
 //@   noterm
 //@   requires conn.sock != nil && conn.config.ResendInterval > 0 && !closed(timeout)
 //@   ensures [signal] nsent(timeout) > old(nsent(timeout)) ==> nsent(timeout) == old(nsent(timeout)) + 1 && (nrecv(heartbeat) == old(nrecv(heartbeat)) || lastrecv(heartbeat) != 0)
 //@   ensures [request] nsend(conn.sock) >= old(nsend(conn.sock)) + 1
+//@   ensures [frame.inbound] nsent(conn.inbound) == old(nsent(conn.inbound)) && nsent(conn.ack) == old(nsent(conn.ack))
 //@   assigns nothing
 
 //@ func (conn *Tunnel) handleConnStateRes(res *knxnet.ConnStateRes, heartbeat chan<- knxnet.ErrCode) (err error)
@@ -113,6 +115,7 @@ package knx
 //@   requires res != nil && conn.config.ResendInterval > 0
 //@   ensures [foreign] res.Channel != conn.channel ==> err != nil && nsent(heartbeat) == old(nsent(heartbeat))
 //@   ensures [offered] nsent(heartbeat) > old(nsent(heartbeat)) ==> res.Channel == conn.channel && lastsent(heartbeat) == res.Status && nsent(heartbeat) == old(nsent(heartbeat)) + 1
+//@   ensures [frame.inbound] base(heartbeat) != base(conn.inbound) ==> nsent(conn.inbound) == old(nsent(conn.inbound))
 //@   assigns nothing
 
 //@ func (conn *Tunnel) handleDiscReq(req *knxnet.DiscReq) (err error)
@@ -138,13 +141,20 @@ package knx
 
 //@ func (conn *Tunnel) process() (err error)
 //@   props C09 C04
+//@   exact
 //@   ghost nsend lastsend sendsame sendclock nrecv lastrecv nticker ntickerstop nafter period lastticker.d lastafter.d nsent lastsent nspawn spawnarg
 //@   noterm
-//@   requires conn.sock != nil && conn.config.ResendInterval > 0 && conn.config.HeartbeatInterval > 0 && !closed(conn.inbound)
+//@   requires conn.sock != nil && conn.config.ResendInterval > 0 && conn.config.HeartbeatInterval > 0 && !closed(conn.inbound) && base(conn.ack) != base(conn.inbound)
 //@   ensures [outcomes] err == nil || err == errHeartbeatFailed || err == errInboundClosed || err == errDisconnected
 //@   ensures [inbound.open] !closed(conn.inbound)
 //@   assigns nothing
 //@   loop 0 invariant !closed(conn.inbound) && !closed(heartbeat) && !closed(timeout)
+//@   -- C04 at the level of the receive loop: a tunnelling request taken from the socket in this iteration
+//@   -- is delivered iff it carries the connection's channel and (UDP) the expected sequence number,
+//@   -- and the expected number (a local of this function, 0 on entry) advances exactly then
+//@   loop 0 step [receiver] nrecv(conn.sock.Inbound()) > prev(nrecv(conn.sock.Inbound())) && typeis(lastrecv(conn.sock.Inbound()), *knxnet.TunnelReq) ==> nsent(conn.inbound) == prev(nsent(conn.inbound)) + (lastrecv(conn.sock.Inbound()).(*knxnet.TunnelReq).Channel == conn.channel && (conn.config.UseTCP || lastrecv(conn.sock.Inbound()).(*knxnet.TunnelReq).SeqNumber == prev(seqNumber)) ? 1 : 0)
+//@   loop 0 step [expected] nrecv(conn.sock.Inbound()) > prev(nrecv(conn.sock.Inbound())) && typeis(lastrecv(conn.sock.Inbound()), *knxnet.TunnelReq) ==> seqNumber == prev(seqNumber) + (lastrecv(conn.sock.Inbound()).(*knxnet.TunnelReq).Channel == conn.channel && !conn.config.UseTCP && lastrecv(conn.sock.Inbound()).(*knxnet.TunnelReq).SeqNumber == prev(seqNumber) ? uint8(1) : uint8(0))
+//@   loop 0 step [others] !(nrecv(conn.sock.Inbound()) > prev(nrecv(conn.sock.Inbound())) && typeis(lastrecv(conn.sock.Inbound()), *knxnet.TunnelReq)) ==> seqNumber == prev(seqNumber) && nsent(conn.inbound) == prev(nsent(conn.inbound))
 //@   loop 0 assigns seqNumber
 //@   loop 0 ghost nsend lastsend sendsame sendclock nrecv lastrecv nticker ntickerstop nafter period lastticker.d lastafter.d nsent lastsent nspawn spawnarg
 
@@ -176,3 +186,54 @@ package knx
 //@   loop 0 invariant !closed(conn.inbound) && !closed(conn.ack) && !held(conn.seqMu) && nclose(conn.ack) == old(nclose(conn.ack)) && nclose(conn.inbound) == old(nclose(conn.inbound)) && gcount("wg:Done") == old(gcount("wg:Done"))
 //@   loop 0 assigns conn.control, conn.channel, conn.seqNumber
 //@   loop 0 ghost nsend lastsend sendsame sendclock nrecv lastrecv nticker ntickerstop nafter period lastticker.d lastafter.d nsent lastsent nspawn spawnarg held unlockclock
+
+// ---------- C12: group events ----------
+
+//@ func buildGroupOutbound(event GroupEvent) (ldata cemi.LData)
+//@   props C12
+//@   ensures [group] ldata.Control2.IsGroupAddr() && ldata.Control2.Hops() == 6
+//@   ensures [priority] ldata.Control1 & 0x0c == cemi.Control1Prio(cemi.PrioLow)
+//@   ensures [stdframe] (ldata.Control1 & cemi.Control1StdFrame != 0) == (len(event.Data) <= 15)
+//@   ensures [apdu] typeis(ldata.Data, *cemi.AppData) && fresh(payload(ldata.Data)) && ldata.Data.(*cemi.AppData).Command == cemi.APCI(event.Command) && ldata.Data.(*cemi.AppData).Data == event.Data && !ldata.Data.(*cemi.AppData).Numbered && ldata.Data.(*cemi.AppData).SeqNumber == 0
+//@   ensures [addresses] ldata.Source == event.Source && ldata.Destination == uint16(event.Destination) && len(ldata.Info) == 0
+//@   assigns nothing
+
+//@ func serveGroupInbound(inbound <-chan cemi.Message, outbound chan<- GroupEvent)
+//@   props C12
+//@   timeout 90
+//@   ghost nrecv lastrecv nsent lastsent closed nclose
+//@   noterm
+//@   requires !closed(outbound)
+//@   ensures [closed] closed(outbound) && nclose(outbound) == old(nclose(outbound)) + 1
+//@   assigns nothing
+//@   loop 0 invariant !closed(outbound) && nclose(outbound) == old(nclose(outbound))
+//@   loop 0 step [filter] nrecv(inbound) > prev(nrecv(inbound)) ==> nsent(outbound) == prev(nsent(outbound)) + (typeis(lastrecv(inbound), *cemi.LDataInd) && lastrecv(inbound).(*cemi.LDataInd).Control2.IsGroupAddr() && typeis(lastrecv(inbound).(*cemi.LDataInd).Data, *cemi.AppData) && lastrecv(inbound).(*cemi.LDataInd).Data.(*cemi.AppData).Command.IsGroupCommand() ? 1 : 0)
+//@   loop 0 step [event] nsent(outbound) > prev(nsent(outbound)) ==> lastsent(outbound).Command == GroupCommand(lastrecv(inbound).(*cemi.LDataInd).Data.(*cemi.AppData).Command) && lastsent(outbound).Source == lastrecv(inbound).(*cemi.LDataInd).Source && lastsent(outbound).Destination == cemi.GroupAddr(lastrecv(inbound).(*cemi.LDataInd).Destination) && lastsent(outbound).Data == lastrecv(inbound).(*cemi.LDataInd).Data.(*cemi.AppData).Data
+//@   loop 0 assigns nothing
+//@   loop 0 ghost nrecv lastrecv nsent lastsent
+
+// ---------- C20: describe / discover ----------
+
+//@ func DescribeTunnel(address string, searchTimeout time.Duration) (res *knxnet.DescriptionRes, err error)
+//@   props C20
+//@   ghost
+//@   noterm
+//@   ensures [released] gcount("ndial") == old(gcount("ndial")) + 1 && gcount("ndialfail") == old(gcount("ndialfail")) ==> gcount("nsockclose") == old(gcount("nsockclose")) + 1
+//@   ensures [one.request] gcount("nsocksend") <= old(gcount("nsocksend")) + 1
+//@   ensures [timeout] gcount("nafter") > old(gcount("nafter")) ==> gcount("nafter") == old(gcount("nafter")) + 1 && gval("lastafter.d") == int64(searchTimeout)
+//@   loop 0 invariant gcount("nsockclose") == old(gcount("nsockclose")) && gcount("nsocksend") == old(gcount("nsocksend")) + 1 && gcount("nafter") == old(gcount("nafter")) + 1 && gval("lastafter.d") == int64(searchTimeout) && gcount("ndial") == old(gcount("ndial")) + 1 && gcount("ndialfail") == old(gcount("ndialfail"))
+//@   loop 0 assigns nothing
+//@   loop 0 ghost nrecv lastrecv
+
+//@ func DiscoverOnInterface(ifi *net.Interface, multicastDiscoveryAddress string, searchTimeout time.Duration) (results []*knxnet.SearchRes, err error)
+//@   props C20
+//@   ghost
+//@   noterm
+//@   ensures [released] gcount("ndial") == old(gcount("ndial")) + 1 && gcount("ndialfail") == old(gcount("ndialfail")) ==> gcount("nsockclose") == old(gcount("nsockclose")) + 1
+//@   ensures [one.request] gcount("nsocksend") <= old(gcount("nsocksend")) + 1
+//@   ensures [timeout] gcount("nafter") > old(gcount("nafter")) ==> gcount("nafter") == old(gcount("nafter")) + 1 && gval("lastafter.d") == int64(searchTimeout)
+//@   loop 0 invariant gcount("nsockclose") == old(gcount("nsockclose")) && gcount("nsocksend") == old(gcount("nsocksend")) + 1 && gcount("nafter") == old(gcount("nafter")) + 1 && gval("lastafter.d") == int64(searchTimeout) && gcount("ndial") == old(gcount("ndial")) + 1 && gcount("ndialfail") == old(gcount("ndialfail"))
+//@   loop 0 step [collect] len(results) == prev(len(results)) + (nrecv(socket.Inbound()) > prev(nrecv(socket.Inbound())) && typeis(lastrecv(socket.Inbound()), *knxnet.SearchRes) ? 1 : 0)
+//@   loop 0 step [appended] len(results) > prev(len(results)) ==> results[len(results)-1] == lastrecv(socket.Inbound()).(*knxnet.SearchRes)
+//@   loop 0 assigns results[0:cap(results)]
+//@   loop 0 ghost nrecv lastrecv
